@@ -158,6 +158,36 @@ def decide(script, logic, timeout, cross=False):
     second = "z3new" if nonlinear else "cvc5"
     res = {}
     t_all = 0.0
+    if nonlinear and timeout >= 60 and not cross:
+        # long-running nonlinear goal: race the two z3 versions, first definite verdict wins
+        t0 = time.time()
+        procs = {}
+        for name in ("z3", "z3new"):
+            p = subprocess.Popen(solver_cmd(name, timeout), stdin=subprocess.PIPE, stdout=subprocess.PIPE, stderr=subprocess.STDOUT, text=True)
+            try:
+                p.stdin.write(script)
+                p.stdin.close()
+            except BrokenPipeError:
+                pass
+            procs[name] = p
+        verdict, who = "unknown", None
+        while procs and time.time() - t0 < timeout + 5:
+            for name, p in list(procs.items()):
+                if p.poll() is not None:
+                    out = p.stdout.read()
+                    lines = [l.strip() for l in out.splitlines() if l.strip()]
+                    v = lines[0] if lines and not any(l.startswith("(error") for l in lines) else "error"
+                    res[name] = v if v in ("sat", "unsat", "unknown") else "timeout"
+                    del procs[name]
+                    if v in ("sat", "unsat") and who is None:
+                        verdict, who = v, name
+            if who:
+                break
+            time.sleep(0.05)
+        for name, p in procs.items():
+            p.kill()
+            res.setdefault(name, "stopped")
+        return {"verdict": verdict, "solver": who, "time": time.time() - t0, "solvers": res}
     order = ["z3", second]
     verdict, who = "unknown", None
     for i, name in enumerate(order):
